@@ -75,7 +75,12 @@ type knownEntry struct {
 	Property  string `json:"property"`
 	Signature string `json:"signature"` // regexp on the violation signature
 	History   string `json:"history"`   // optional regexp on the failing history / message
-	What      string `json:"what"`
+	// Signatures lists exact violation signatures (used instead of the regexp
+	// when a finding is identified per failing operation mix); Profile
+	// restricts the entry to one profile.
+	Signatures []string `json:"signatures"`
+	Profile    string   `json:"profile"`
+	What       string   `json:"what"`
 }
 
 type knownFile struct {
@@ -509,7 +514,20 @@ func main() {
 			if k.Property != id {
 				continue
 			}
-			if ok, _ := regexp.MatchString(k.Signature, f.Viol.Sig); !ok {
+			if k.Profile != "" && k.Profile != f.Profile {
+				continue
+			}
+			if len(k.Signatures) > 0 {
+				hit := false
+				for _, s := range k.Signatures {
+					if s == f.Viol.Sig {
+						hit = true
+					}
+				}
+				if !hit {
+					continue
+				}
+			} else if ok, _ := regexp.MatchString(k.Signature, f.Viol.Sig); !ok {
 				continue
 			}
 			if k.History != "" {
